@@ -202,10 +202,94 @@ def specDesc (cs : List Char) : Option Bytes :=
   | "wtb" | "wtf" => (natOf arg).bind (fun v => if v < 2^62 then some (specVarint 0x41 ++ specVarint v) else none)
   | _ => ofFrame cs
 
+/-! ### `wbuf datac:<hex>|<hex>|…` / `wbuf pair:<ty>:datac:…`: a payload in segments -/
+
+/-- segments separated by `|`; `-` (or nothing) = an empty segment -/
+def parseSegs (cs : List Char) : Option (List Bytes) :=
+  (splitC '|' cs).mapM (fun c => if c.isEmpty then some [] else hexOf c)
+
+inductive BuiltC where
+  | ok (w : Option WBC) (flat : Bytes)
+  | badOp
+  | notChunked
+
+def buildDescC (cs : List Char) : BuiltC :=
+  let (k, arg) := match splitOnce ':' cs with | some p => p | none => (cs, [])
+  match str k with
+  | "datac" =>
+    (match parseSegs arg with
+     | some segs => .ok (fromDataC segs) segs.flatten
+     | none => .badOp)
+  | "pair" =>
+    (match splitOnce ':' arg with
+     | none => .notChunked
+     | some (ty, fd) =>
+       match splitOnce ':' fd with
+       | some (k2, a2) =>
+         if str k2 == "datac" then
+           (match natOf ty, parseSegs a2 with
+            | some v, some segs => .ok (fromPairDataC v segs) segs.flatten
+            | _, _ => .badOp)
+         else .notChunked
+       | none => .notChunked)
+  | _ => .notChunked
+
+def drainAllC : Nat → WBC → Option Bytes
+  | 0, _ => some []
+  | fuel+1, w =>
+    let c := w.chunk
+    if c.isEmpty then some []
+    else match w.advance c.length with
+      | none => none
+      | some w' => (drainAllC fuel w').map (c ++ ·)
+
+def runPatC : WBC → List Pat → Bytes → List String → Option (Bytes × List String)
+  | w, [], all, acc =>
+    (drainAllC (w.pay.length + 4) w).map (fun rest => (all ++ rest, acc ++ [s!"left={hexOrDash rest}"]))
+  | w, .take k :: ps, all, acc =>
+    match w.step k with
+    | none => none
+    | some (o, w') => runPatC w' ps (all ++ o) (acc ++ [s!"{hexOrDash o}:r{w'.remaining}"])
+  | w, .adv n :: ps, all, acc =>
+    match w.advance n with
+    | none => none
+    | some w' => runPatC w' ps all (acc ++ [s!"a:r{w'.remaining}"])
+
+/-- the specification sees the flattened payload only: `00`, its total length, the bytes (behind
+    the stream type for a pair) -/
+def specDescC (cs : List Char) (flat : Bytes) : Option Bytes :=
+  let (k, arg) := match splitOnce ':' cs with | some p => p | none => (cs, [])
+  match str k with
+  | "datac" => specFrame (.data flat)
+  | "pair" =>
+    (match splitOnce ':' arg with
+     | some (ty, _) =>
+       (match natOf ty, specFrame (.data flat) with
+        | some v, some b => if v < 2^62 then some (specVarint v ++ b) else none
+        | _, _ => none)
+     | none => none)
+  | _ => none
+
+def wbufHandleC (desc : String) (ps : List Pat) (w : Option WBC) (flat : Bytes) : String :=
+  let bare := ps.any (fun p => match p with | .adv _ => true | _ => false)
+  let spec := match specDescC desc.toList flat with
+    | some b => if bare then "?" else s!"all={hexOrDash b} **"
+    | none => "?"
+  match w with
+  | none => "panic ## ?"
+  | some w =>
+    match runPatC w ps [] [s!"r{w.remaining}"] with
+    | none => "panic ## ?"
+    | some (all, out) => s!"all={hexOrDash all} " ++ " ".intercalate out ++ " ## " ++ spec
+
 def wbufHandle (desc pat : String) : String :=
   match parsePat pat with
   | none => "bad-op"
   | some ps =>
+    match buildDescC desc.toList with
+    | .badOp => "bad-op"
+    | .ok w flat => wbufHandleC desc ps w flat
+    | .notChunked =>
     let bare := ps.any (fun p => match p with | .adv _ => true | _ => false)
     let spec := match specDesc desc.toList with
       | some b => if bare then "?" else s!"all={hexOrDash b} **"
